@@ -118,6 +118,19 @@ def annotations(tier):
         n += 1
         out.append(("a%d" % n, w, {"T1": ("chr1", strand, ex, "G1")}, {"spec": "genomic-a-run", "strand": strand, "second": None,
                                                                          "arun": (e3[1] - 100) if strand == "+" else (e3[0] + 100)}))
+    # the single-isoform annotation whose last-but-one exon (in transcript direction) is 30 bp long: a read that stops, with a polyA tail
+    # (polyT head on '-'), right after the exon BEFORE it ends two exons and 1.5 kb before the isoform's end
+    for strand in "+-":
+        ex = [list(e) for e in isoform_exons(1000, tuple(range(nslots)))]
+        if strand == "+":
+            ex[-2][1] = ex[-2][0] + 29
+        else:
+            ex[1][0] = ex[1][1] - 29
+        ex = [tuple(e) for e in ex]
+        w = {"chroms": {"chr1": 12000, "chr2": 7000}, "sites": [], "reads": [],
+             "genes": [{"id": "G1", "chr": "chr1", "strand": strand, "transcripts": [{"id": "T1", "exons": [list(e) for e in ex]}]}]}
+        n += 1
+        out.append(("a%d" % n, w, {"T1": ("chr1", strand, ex, "G1")}, {"spec": "short-penultimate-exon", "strand": strand, "second": None, "apa": True}))
     # a gene nested in the last intron of another gene; reads exist for the host's SHORT isoform (first two exons) and for the nested gene
     # only, so they form two separate read clusters: the first overlaps the host gene alone, the second the host and the nested gene
     for strand in "+-":
@@ -383,13 +396,23 @@ def case(args):
                         rd["edits"] = [[e[0] + 1] + list(e[1:]) for e in rd["edits"]]
             reads.append(rd)
             info[nm] = r
-        for r in negative_reads(tid, chrom, strand, ex, delta):
+        # (the generic negative reads are not derived from the annotation with a 30-bp exon: skipping an exon that short is one of
+        # IsoQuant's tolerated misalignments, not a structural change beyond the tolerances)
+        for r in (negative_reads(tid, chrom, strand, ex, delta) if not meta.get("apa") else []):
             if not far_from_all(r["blocks"], iso, chrom, delta):
                 continue
             nm = "n%d" % k
             k += 1
             reads.append(dict({"name": nm, "chr": chrom, "blocks": [list(b) for b in r["blocks"]]}, **r["extras"]))
             info[nm] = r
+    if meta.get("apa"):
+        chrom, strand, ex, g = iso["T1"]
+        r = {"blocks": [tuple(b) for b in (ex[:-2] if strand == "+" else ex[2:])], "kind": "polya-two-exons-before-the-end", "T": "T1", "chr": chrom,
+             "extras": dict({"reverse": strand == "-"}, **({"clip_right": "A" * 30} if strand == "+" else {"clip_left": "T" * 30}))}
+        nm = "n%d" % k
+        k += 1
+        reads.append(dict({"name": nm, "chr": chrom, "blocks": [list(b) for b in r["blocks"]]}, **r["extras"]))
+        info[nm] = r
     w = dict(w, reads=reads)
     syn.plant_for_transcripts(w)
     dd = os.path.join(scratch, "c01_%s_%s" % (name, preset))
